@@ -1,6 +1,7 @@
 /-
   Hand-written executable model (E2) of the host-side NumPy block of
-    /repo/mujoco_warp/_src/io.py  `put_model`   ("# precalculated geom pairs", lines 551-584, 629-640)
+    /repo/mujoco_warp/_src/io.py  `put_model`   ("# precalculated geom pairs", lines 554-590, 635-646; state of commit 6cb912c,
+    which added the rejection of self pairs to the explicit-pair loop)
   that builds `m.nxn_geom_pair`, the contact column of `m.nxn_pairid` (`nxn_pairid_contact`) and the
   host-side filter `nxn_include` / `nxn_geom_pair_filtered` / `nxn_pairid_filtered`.
 
@@ -25,6 +26,9 @@
         i, j = (j, i) if j < i else (i, j)
         return (i * (2 * n - i - 3)) // 2 + j - 1
       for i in range(mjm.npair):
+        # the pair table has one slot per unordered pair of DISTINCT geoms: a self pair would alias another pair's slot
+        if mjm.pair_geom1[i] == mjm.pair_geom2[i]:
+          raise NotImplementedError(f"Contact pair {i}: a pair of a geom with itself is not supported.")
         nxn_pairid_contact[upper_tri_index(mjm.ngeom, mjm.pair_geom1[i], mjm.pair_geom2[i])] = i
       ...
       nxn_include = (nxn_pairid_contact > -2) | (nxn_pairid_collision >= 0)
@@ -42,6 +46,9 @@
     ascending, then `j` ascending, `i < j`); the explicit-pair write `a[idx] = i` has NumPy semantics (`npSet`):
     `-len ≤ idx < 0` wraps, otherwise out of range → `none` (IndexError, `put_model` raises).
   * the pair id of the `k`-th element of `pairs` is `k` (`for i in range(mjm.npair)`).
+  * the loop has THREE outcomes (`Outcome`): it completes (`ok table`), the write raises IndexError
+    (`indexError`), or — checked for pair `i` BEFORE its write, so the first offending pair in list order decides —
+    `put_model` itself raises NotImplementedError for a pair of a geom with itself (`notImplemented`).
   * NOT modelled: the collision-sensor column `nxn_pairid_collision` (it is an INPUT of `includeMask`);
     int32 overflow of `i * (2 * n - i - 3)` when `pair_geom1[i]` is an `np.int32` scalar (needs ngeom > 46340,
     i.e. a table with > 10^9 entries).
@@ -57,6 +64,8 @@
             (the empty string if ngeom < 2);
             or `ERR` if the NumPy code would raise IndexError (a geom/body id out of range, or an explicit-pair
             index out of range);
+            or `NOTIMPL` if `put_model` raises NotImplementedError in the explicit-pair loop (a pair `i` with
+            `pair_geom1[i] == pair_geom2[i]`, no earlier pair having raised IndexError);
       `proto` returns `none` on a malformed line (wrong token count, non-integer token, negative count).
 
   Core Lean only; executable.
@@ -141,17 +150,31 @@ def npSet (l : List Int) (idx v : Int) : Option (List Int) :=
   else if -len ≤ idx ∧ idx < 0 then some (l.set (idx + len).toNat v)
   else none
 
-/-- `for i in range(k, npair): t[upper_tri_index(ngeom, pair_geom1[i], pair_geom2[i])] = i` -/
-def applyPairs (n : Int) : List (Int × Int) → Nat → List Int → Option (List Int)
-  | [], _, t => some t
+/-- how the explicit-pair loop of `put_model` ends -/
+inductive Outcome where
+  /-- the loop completes; `put_model` goes on with this `nxn_pairid_contact` -/
+  | ok (table : List Int)
+  /-- the NumPy write `nxn_pairid_contact[idx] = i` raises IndexError -/
+  | indexError
+  /-- `raise NotImplementedError("Contact pair i: a pair of a geom with itself is not supported.")` -/
+  | notImplemented
+  deriving DecidableEq, Repr
+
+/-- `for i in range(k, npair):`
+      `if pair_geom1[i] == pair_geom2[i]: raise NotImplementedError(...)`
+      `t[upper_tri_index(ngeom, pair_geom1[i], pair_geom2[i])] = i` -/
+def applyPairs (n : Int) : List (Int × Int) → Nat → List Int → Outcome
+  | [], _, t => .ok t
   | p :: ps, k, t =>
-    match npSet t (upperTriIndex n p.1 p.2) (Int.ofNat k) with
-    | none => none
-    | some t' => applyPairs n ps (k + 1) t'
+    if p.1 = p.2 then .notImplemented
+    else
+      match npSet t (upperTriIndex n p.1 p.2) (Int.ofNat k) with
+      | none => .indexError
+      | some t' => applyPairs n ps (k + 1) t'
 
 /-- the contact column of `m.nxn_pairid` (`nxn_pairid_contact`): `-2` filtered, `-1` geom-geom pair,
-    `≥ 0` explicit pair id.  `none` = `put_model` raises IndexError in the explicit-pair loop. -/
-def pairTable (c : Cfg) : Option (List Int) :=
+    `≥ 0` explicit pair id; or the exception raised by the explicit-pair loop. -/
+def pairTable (c : Cfg) : Outcome :=
   applyPairs (Int.ofNat c.ngeom) c.pairs 0 (baseTable c)
 
 /-- `nxn_include = (nxn_pairid_contact > -2) | (nxn_pairid_collision >= 0)` -/
@@ -236,8 +259,9 @@ def proto (args : List String) : Option String := do
                      body_weldid := asFun bw, body_parentid := asFun bp, filterparent := fp == 1,
                      pairs := p1.zip p2, excludes := ex }
     match pairTable c with
-    | none => some "ERR"
-    | some t => some (fmtInts t)
+    | .indexError => some "ERR"
+    | .notImplemented => some "NOTIMPL"
+    | .ok t => some (fmtInts t)
   | _ => none
 
 /-! ### executable sanity checks -/
@@ -254,18 +278,23 @@ private def exCfg (fp : Bool) (pairs : List (Int × Int)) : Cfg :=
     pairs := pairs, excludes := [1 * 65536 + 3] }
 
 -- (0,1) world-child: kept (weld 0 is exempt from the parent filter); (1,2) parent-child: filtered; (1,3) excluded
-#guard pairTable (exCfg true []) == some [-1, -1, -1, -2, -2, -1]
-#guard pairTable (exCfg false []) == some [-1, -1, -1, -1, -2, -1]
+#guard pairTable (exCfg true []) == .ok [-1, -1, -1, -2, -2, -1]
+#guard pairTable (exCfg false []) == .ok [-1, -1, -1, -1, -2, -1]
 -- explicit pairs override the filter, either order, last one wins
-#guard pairTable (exCfg true [(2, 1), (1, 2), (3, 0)]) == some [-1, -1, 2, 1, -2, -1]
--- NumPy wrap: the degenerate explicit pair (0,0) has index -1 and overwrites the LAST entry
-#guard pairTable (exCfg true [(0, 0)]) == some [-1, -1, -1, -2, -2, 0]
--- (3,3) has index 5 (in range!) ; (0,7) has index 6: IndexError
-#guard pairTable (exCfg true [(3, 3)]) == some [-1, -1, -1, -2, -2, 0]
-#guard pairTable (exCfg true [(0, 7)]) == none
+#guard pairTable (exCfg true [(2, 1), (1, 2), (3, 0)]) == .ok [-1, -1, 2, 1, -2, -1]
+-- a pair of a geom with itself is rejected (its index would be -1 = the LAST entry for (0,0), 5 = the slot of (2,3) for (3,3))
+#guard pairTable (exCfg true [(0, 0)]) == .notImplemented
+#guard pairTable (exCfg true [(3, 3)]) == .notImplemented
+#guard pairTable (exCfg true [(2, 1), (3, 3), (0, 7)]) == .notImplemented
+-- (0,7) has index 6: IndexError; the first offending pair decides
+#guard pairTable (exCfg true [(0, 7)]) == .indexError
+#guard pairTable (exCfg true [(0, 7), (3, 3)]) == .indexError
 #guard proto ["2", "2", "1", "0", "0", "0", "1", "1", "1", "1", "1", "0", "1", "0", "0"] == some "-1"
 #guard proto ["2", "2", "1", "0", "0", "0", "7", "1", "1", "1", "1", "0", "1", "0", "0"] == some "ERR"
 #guard proto ["1", "1", "1", "0", "0", "0", "1", "1", "0", "0"] == some ""
+-- two geoms, one explicit pair (1,1): NotImplementedError; also with a single geom (the loop does not depend on ngeom)
+#guard proto ["2", "2", "1", "1", "0", "0", "1", "1", "1", "1", "1", "0", "1", "0", "0", "1", "1"] == some "NOTIMPL"
+#guard proto ["1", "1", "1", "1", "0", "0", "1", "1", "0", "0", "0", "0"] == some "NOTIMPL"
 #guard proto ["2", "2"] == none
 
 end Mjw.PairFilter
